@@ -323,7 +323,7 @@ class Mat:
             elif k == "retconst":
                 out.append((8,))
             elif k == "raise":
-                out.append((9, rt.EXC[a["exc"]]("sim")))
+                out.append((9, rt.EXC[a["exc"]]))
             elif k == "rebind":
                 out.append((10, a["p"], self.val(a["v"])))
             elif k == "start":
@@ -335,7 +335,7 @@ class Mat:
                 if m == 1:
                     v = self.val(a["v"])
                 elif m == 2:
-                    v = rt.EXC[a["v"]]("thrown")
+                    v = rt.EXC[a["v"]]
                 out.append((12, a["h"], m, v, bool(a.get("catch"))))
             elif k == "await":
                 out.append((13,))
